@@ -201,3 +201,45 @@ def check_head(texts, dmax, model_exe):
             dis.append({"layer": "L3h", "text": text, "what": "head formula differs (rep / shift / unfold)", "first_difference_at_shift": k,
                         "model": [want[0]] + list(want[1][k:k + 1]), "impl": [got[0]] + list(got[1][k:k + 1])})
     return {"head_formulas": n, "shifts_per_formula": dmax + 1}, dis
+
+# --------------------------------------------------------------------------- formula construction incl. error classes (C15)
+
+def formula_probe(text):
+    """
+    Transform and ground step 0; for every ground theory atom element build the formula with the real constructors.
+    Returns a list of (kind, term dump, "ok <rep>" | "ERR <class>"), or a string with the error class when the program is
+    rejected before that.
+    """
+    import clingo, telingo.transformers as tf, telingo.theory.body as bd, telingo.theory.head as hd
+    from clingo.ast import ProgramBuilder
+    prg = clingo.Control(["0"], message_limit=0, logger=lambda c, m: None)
+    try:
+        with ProgramBuilder(prg) as bld:
+            fs, parts = tf.transform([text], bld.add)
+        prg.ground([("initial", [clingo.Number(0), clingo.Number(0)]), ("always", [clingo.Number(0), clingo.Number(0)])])
+    except BaseException as e:  # noqa
+        if isinstance(e, KeyboardInterrupt):
+            raise
+        return "ERR " + tl.classify_exc(e)
+    out = []
+    for a in prg.theory_atoms:
+        if len(a.term.arguments) != 1 or a.term.name not in ("tel", "del", "__tel_head"):
+            continue
+        for e in a.elements:
+            if len(e.terms) != 1:
+                continue
+            t = e.terms[0]
+            try:
+                if a.term.name == "tel":
+                    f = bd.create_formula(t, lambda x: x); rep = f._rep
+                elif a.term.name == "del":
+                    f = bd.create_dynamic_formula(t, lambda x: x); rep = f._rep
+                else:
+                    f = hd.create_formula(t, lambda x: x); rep = str(f)
+                res = "ok " + str(rep)
+            except BaseException as ex:  # noqa
+                if isinstance(ex, KeyboardInterrupt):
+                    raise
+                res = "ERR " + tl.classify_exc(ex)
+            out.append(({"tel": "tel", "del": "del", "__tel_head": "head"}[a.term.name], tl.dump_tterm(t), res))
+    return out
